@@ -98,3 +98,114 @@ def stale_after_dependency_edit() -> tuple[bool, str]:
 		return bool(diff), f'after editing src/b.py a non-forced run leaves {diff} different from a forced run'
 	finally:
 		p.close()
+
+
+def disabled_cache_writes() -> tuple[bool, str]:
+	"""F-C05-b witness: with caching disabled (CacheSetting.enabled False injected through the di: key) a run still tries to write symbols files:
+	it either leaves files under the cache directory or dies in SymbolDBPersistor._store because nothing created that directory."""
+	p = Project(cache_enabled=False)
+	try:
+		p.write('b.py', 'def g() -> int:\n\treturn 1\n')
+		r = p.run()
+		files = p.cache_files()
+		text = r.stdout + r.stderr
+		if '_store' in text and 'FileNotFoundError' in text:
+			return True, 'run with caching disabled died in SymbolDBPersistor._store (FileNotFoundError): it tried to write a cache file'
+		if files:
+			return True, f'cache files written with caching disabled: {[os.path.relpath(f, p.dir) for f in files][:3]}'
+		return False, f'no cache access; outputs: {sorted(p.outputs())}'
+	finally:
+		p.close()
+
+
+def transitive_stale_symbols() -> tuple[bool, str]:
+	"""F-C05-a witness: a -> b -> c; run (warm the caches); edit c so that b.y changes type; forced warm run vs forced cold run."""
+	p = Project()
+	try:
+		p.write('c.py', 'def h() -> int:\n\treturn 1\n')
+		p.write('b.py', 'from src.c import h\n\ny = h()\n')
+		p.write('a.py', 'from src.b import y\n\ndef f() -> None:\n\tz = y\n')
+		r1 = p.run(force=True)
+		if r1.returncode != 0:
+			return False, f'first run failed: {r1.stderr[-300:]}'
+		p.write('c.py', 'def h() -> str:\n\treturn "s"\n')
+		r2 = p.run(force=True)
+		warm = p.outputs()
+		p.clear_cache()
+		r3 = p.run(force=True)
+		cold = p.outputs()
+		if r2.returncode != 0 or r3.returncode != 0:
+			return False, f'run failed: {r2.stderr[-200:]} {r3.stderr[-200:]}'
+		diff = [k for k in cold if body_without_header(cold[k]) != body_without_header(warm.get(k, ''))]
+		return bool(diff), f'after editing src/c.py the warm run differs from the cold run in {diff}'
+	finally:
+		p.close()
+
+
+VARIANTS = {
+	'leaf': ['def h() -> int:\n\treturn 1\n', 'def h() -> str:\n\treturn "s"\n', 'def h() -> float:\n\treturn 1.0\n'],
+}
+
+
+def history_twin(tier: str, seed: int, skip_transitive: bool = True) -> tuple[int, list[dict]]:
+	"""Bounded histories on graphs *without* indirect imports (the transitive case is the listed finding F-C05-a):
+	top imports two leaves; operations edit(leaf, variant) / run / clear-cache; every run is compared with a cold run of the same sources.
+	Also: every cache file truncated at a few offsets must make the next run fail or give the cold output."""
+	import random
+	rnd = random.Random(seed)
+	fails: list[dict] = []
+	runs = 0
+	n_hist = 2 if tier == 'quick' else 8
+	for hno in range(n_hist):
+		p = Project()
+		try:
+			state = {'l1.py': 0, 'l2.py': 1}
+			for k, v in state.items():
+				p.write(k, VARIANTS['leaf'][v])
+			p.write('top.py', 'from src.l1 import h as h1\nfrom src.l2 import h as h2\n\ndef f() -> None:\n\ta = h1()\n\tb = h2()\n')
+			ops = []
+			for step in range(3 if tier == 'quick' else 5):
+				op = rnd.choice(['edit', 'edit', 'run', 'clear'])
+				if op == 'edit':
+					leaf = rnd.choice(list(state))
+					state[leaf] = rnd.randrange(len(VARIANTS['leaf']))
+					p.write(leaf, VARIANTS['leaf'][state[leaf]])
+					ops.append(f'edit {leaf}={state[leaf]}')
+				elif op == 'clear':
+					p.clear_cache()
+					ops.append('clear-cache')
+				r = p.run(force=True)
+				runs += 1
+				warm = p.outputs() if r.returncode == 0 else {'<error>': r.stderr[-200:]}
+				ops.append('run')
+				# cold oracle: same sources, empty cache, separate project
+				q = Project()
+				try:
+					for k, v in state.items():
+						q.write(k, VARIANTS['leaf'][v])
+					q.write('top.py', 'from src.l1 import h as h1\nfrom src.l2 import h as h2\n\ndef f() -> None:\n\ta = h1()\n\tb = h2()\n')
+					rq = q.run(force=True)
+					runs += 1
+					cold = q.outputs() if rq.returncode == 0 else {'<error>': rq.stderr[-200:]}
+				finally:
+					q.close()
+				if {k: body_without_header(v) for k, v in warm.items()} != {k: body_without_header(v) for k, v in cold.items()}:
+					fails.append({'history': list(ops), 'state': dict(state), 'what': 'warm run differs from cold run'})
+					break
+			# truncation of one cache file
+			files = [f for f in p.cache_files() if f.endswith('.json')]
+			if files and not fails:
+				f = rnd.choice(files)
+				data = open(f, 'rb').read()
+				for off in sorted({0, 1, len(data) // 2, max(0, len(data) - 1)}):
+					open(f, 'wb').write(data[:off])
+					r = p.run(force=True)
+					runs += 1
+					if r.returncode == 0:
+						out = {k: body_without_header(v) for k, v in p.outputs().items()}
+						if out != {k: body_without_header(v) for k, v in cold.items()}:
+							fails.append({'history': ops + [f'truncate {os.path.basename(f)} at {off}', 'run'], 'what': 'run succeeded with other content after a damaged cache file'})
+					open(f, 'wb').write(data)
+		finally:
+			p.close()
+	return runs, fails
